@@ -510,6 +510,22 @@ func genCase(r *gen.Rand, idx int, extra bool) *Case {
 		c.D, c.SGD = durPair(r)
 		w.exec(c)
 		w.exec(Cmd{K: "cmst", DB: c.DB, RP: c.RP, M: r.Range(1, 3)})
+		if profile == 3 {
+			// several policies of ONE database with groups: the expansion walks them in name order and hands out ids on the way
+			for rp := 1; rp <= 4; rp++ {
+				if rp == c.RP || r.Chance(1, 4) {
+					continue
+				}
+				sgd := gen.Pick(r, sgdPool)
+				w.exec(Cmd{K: "crp", DB: c.DB, RP: rp, D: i64(0), SGD: &sgd})
+				w.exec(Cmd{K: "cmst", DB: c.DB, RP: rp, M: r.Range(1, 3)})
+			}
+			for _, db := range w.prev.DBs {
+				for _, rp := range db.RPs {
+					w.exec(Cmd{K: "csg", DB: code(db.Key), RP: code(rp.Key), TS: pickTS(r, w), Eng: r.Intn(2)})
+				}
+			}
+		}
 	}
 	for i := 0; i < n; i++ {
 		c := genCmd(r, w, extra)
@@ -774,6 +790,16 @@ func corpus() []*Case {
 			{K: "crp", DB: 1, RP: 3, D: i64(0), SGD: i64(Hour), Def: true},
 			{K: "urp", DB: 1, RP: 0, M: 0, X: "rename", Def: true},
 			{K: "droprp", DB: 1, RP: 0}, {K: "restore"}, {K: "crp", DB: 1, RP: 1, D: i64(0), SGD: i64(Hour), Def: true}, {K: "csg", DB: 1, RP: 0, TS: t10},
+		}),
+		// three policies of one database, each with groups, expanded four times: the walk order decides which ids each gets
+		scripted("expand-walks-policies-in-name-order", 1, []Cmd{
+			{K: "cnode", H: 1, T: 1},
+			{K: "cdb", DB: 1, HasRP: true, RP: 3, D: i64(0), SGD: i64(Hour)},
+			{K: "crp", DB: 1, RP: 1, D: i64(0), SGD: i64(Hour)}, {K: "crp", DB: 1, RP: 2, D: i64(0), SGD: i64(2 * Hour)}, {K: "crp", DB: 1, RP: 4, D: i64(0), SGD: i64(Hour)},
+			{K: "cmst", DB: 1, RP: 1, M: 1}, {K: "cmst", DB: 1, RP: 2, M: 1}, {K: "cmst", DB: 1, RP: 3, M: 1}, {K: "cmst", DB: 1, RP: 4, M: 1},
+			{K: "csg", DB: 1, RP: 3, TS: t10}, {K: "csg", DB: 1, RP: 1, TS: t10}, {K: "csg", DB: 1, RP: 4, TS: t10}, {K: "csg", DB: 1, RP: 2, TS: t10},
+			{K: "cnode", H: 2, T: 2}, {K: "expand"}, {K: "cnode", H: 3, T: 3}, {K: "expand"}, {K: "cnode", H: 4, T: 4}, {K: "expand"},
+			{K: "cnode", H: 5, T: 5}, {K: "expand"}, {K: "restore"}, {K: "cnode", H: 6, T: 6}, {K: "expand"},
 		}),
 		// a store with expand-shards-enable: every node that really joins expands all groups inside the same command
 		scripted("join-expands-groups", 2, []Cmd{
